@@ -19,7 +19,7 @@ RULE = ('class models with hierarchies (single/multiple inheritance, abstract cl
         'registration order and of every Union\'s members and must give the same outcome; abstract and '
         'unregistered classes must never be instantiated; model and real recognised outcome compared.  '
         'Non-trivial = the document type involves a class with registered subclasses or a Union.'
-        'Directed families: small hierarchies (chains, siblings, unions; abstract middle classes;'
+        ' Directed families: small hierarchies (chains, siblings, unions; abstract middle classes;'
         ' with and without _yatiml_extra) with documents written for one chosen class and then a'
         ' key dropped / added / a tag, judged by the reference pipeline; URI tags (%TAG handles,'
         ' primary handle, verbatim); Union members told apart by recognisers that pin an int'
